@@ -28,6 +28,7 @@ PURE_FUNCS = {
     "add": (2, lambda x, y: x + y),
     "mix": (2, lambda x, y: 0.25 * x - y * y),
     "fma": (3, lambda x, y, z: x * y + z),
+    "boom": (1, lambda x: (_ for _ in ()).throw(ValueError("user function failed"))),
     "w4": (4, lambda a, b, c, d: a + 2 * b + 3 * c + 4 * d),
     "w5": (5, lambda a, b, c, d, e: a + 2 * b + 3 * c + 4 * d + 5 * e),
     "w6": (6, lambda a, b, c, d, e, f: a + 2 * b + 3 * c + 4 * d + 5 * e + 6 * f),
@@ -904,6 +905,8 @@ class World:
                     val = self._val(a["val"], shape)
                     want = (0.0, 1.0, np.array(val, copy=True))
                     face.fixedValue(val)
+            elif fn == "fixedGradient" and a.get("wrong_shape"):
+                face.fixedGradient(np.full(tuple(s_ + 1 for s_ in shape) + (2,), 0.75))
             elif fn == "fixedGradient":
                 val = self._val(a["val"], shape)
                 want = (1.0, 0.0, np.array(val, copy=True))
@@ -975,7 +978,15 @@ class World:
         face = getattr(bent.obj, went.meta["side"])
         if not shares(went.obj, getattr(face, went.meta["coef"])):
             raise Skip("orphaned view")
-        went.obj[...] = self._val(a["val"], went.obj.shape)
+        if a.get("wrong_shape"):
+            try:
+                went.obj[...] = np.full(tuple(s_ + 1 for s_ in went.obj.shape) + (2,), 1.25)
+            except Exception as ex:
+                ctx.status = "raised:" + type(ex).__name__
+                ctx.fault = "bad_shape_assign"
+                self.stats["fault-fired:bad_shape_assign"] += 1
+        else:
+            went.obj[...] = self._val(a["val"], went.obj.shape)
         self.probes["edit:through-retained-view"] += 1
         self._mark_bc_edit(bent, "view", ctx)
 
@@ -1052,11 +1063,17 @@ class World:
         items = []
         for s in specs:
             if "bad" in s:
-                items.append(("bad", s["bad"], None, None, None))
+                bt = self.get(s["t"], "t") if s.get("t") else None
+                if s["bad"] in ("tuple_swapped", "tuple3") and (bt is None or bt.meta["kind"] != "MR"):
+                    raise Skip("needs a (matrix, vector) pair")
+                items.append(("bad", s["bad"], bt, None, None))
                 continue
             te = self.get(s["t"], "t")
             if te.meta["kind"] not in ("M", "R", "MR"):
                 raise Skip("not a list term")
+            if s.get("foreign"):
+                items.append(("foreign", te, None, None, None))
+                continue
             neg = bool(s.get("neg"))
             scale = s.get("scale")
             if te.meta["kind"] == "MR" and (neg or scale is not None):
@@ -1079,16 +1096,30 @@ class World:
         # user-side term list
         user_terms = []
         model_items = []
+        n_full = int(np.prod(np.asarray(ment.obj.dims) + 2))
         for it in items:
             if it[0] == "bad":
-                n = int(np.prod(np.asarray(ment.obj.dims) + 2))
-                user_terms.append(np.zeros((n, 1, 1)) if it[1] == "ndim3" else np.zeros((n, 1, 1)))
+                if it[1] == "tuple_swapped":
+                    user_terms.append((it[2].obj[1], it[2].obj[0]))
+                elif it[1] == "tuple3":
+                    user_terms.append((it[2].obj[0], it[2].obj[1], it[2].obj[1]))
+                else:
+                    user_terms.append(np.zeros((n_full, 1, 1)))
+            elif it[0] == "foreign":
+                parts = it[1].obj if isinstance(it[1].obj, tuple) else (it[1].obj,)
+                if it[1].meta.get("mesh") == ment.name or \
+                        all(np.shape(p_)[0] == n_full for p_ in parts):
+                    raise Skip("term is not foreign to this mesh")
+                user_terms.append(it[1].obj)
             else:
                 user_terms.append(O.apply_mods(it[1].obj, it[2], it[3], it[4]))
                 model_items.append((it[1].obj, it[2], it[3]))
                 if it[4]:
                     self.probes["solve:term-format-" + str(it[4])] += 1
-        has_bad = any(it[0] == "bad" for it in items)
+        has_bad = any(it[0] in ("bad", "foreign") for it in items)
+        bad_kind = next((("foreign_term" if it[0] == "foreign" else
+                          "unknown_term" if it[1] == "ndim3" else "bad_tuple")
+                         for it in items if it[0] in ("bad", "foreign")), None)
         n_reuse = sum(1 for it in items if it[0] == "t" and it[1].meta.get("uses", 0) >= 2)
         for it in items:
             if it[0] == "t":
@@ -1130,7 +1161,7 @@ class World:
         elif mode == "ext_badshape" and fake.calls:
             fault = "solver_badshape"
         elif has_bad:
-            fault = "unknown_term"
+            fault = bad_kind
         if got[0] == "raise":
             ctx.status = "raised:" + got[1]
             if fault is None:
@@ -1364,6 +1395,8 @@ class World:
             if te.meta["kind"] != "R" or te.meta.get("mesh") != ment.name:
                 raise Skip("rhs not a vector on this mesh")
             rhs = te.obj
+        elif a["rhs"].get("badsize"):
+            rhs = np.linspace(0.0, 1.0, n + 3)
         else:
             rhs = materialize(a["rhs"], (n,))
         dt = float(a["dt"])
@@ -1384,6 +1417,11 @@ class World:
         if got != "ok":
             ctx.status = "raised:" + got
             self._note_consumer_fault(vent, ctx)
+            if ctx.fault is None and a["rhs"].get("badsize"):
+                ctx.fault = "explicit_badrhs"
+                self.stats["fault-fired:explicit_badrhs"] += 1
+                vent.meta["faulted_at"] = self.step
+                vent.meta["fault_kind"] = ctx.fault
             if ctx.fault is None and twin is not None and not degenerate:
                 ok = True
                 try:
@@ -1455,7 +1493,8 @@ class World:
         lo, lm, le = self._operand(lspec, shp)
         ro, rm, re_ = self._operand(rspec, shp)
         for x in (le, re_):
-            if x is not None and (x.kind != kind or x.meta["mesh"] != ment.name):
+            if x is not None and (x.kind != kind or
+                                  (x.meta["mesh"] != ment.name and not a.get("fault"))):
                 raise Skip("operand mismatch")
         if le is None and "arr" in lspec:
             raise Skip("ndarray on the left is numpy's dispatch")
@@ -1475,6 +1514,12 @@ class World:
             res = f(lo, ro)
         except Exception as ex:
             ctx.status = "raised:" + type(ex).__name__
+            if a.get("fault"):
+                # operands on different meshes: rejecting the call is the expected
+                # outcome (numpy broadcasting error or the constructor's size check)
+                ctx.fault = "algebra_mismatch"
+                self.stats["fault-fired:algebra_mismatch"] += 1
+                return
             src = le if le is not None else re_
             if kind == "v" and self.bcs_invalid(src):
                 return          # documented constructor error: BCs currently invalid
@@ -1637,6 +1682,9 @@ class World:
             res = getattr(pf, fn)(f, *[x.obj for x in ents])
         except Exception as ex:
             ctx.status = "raised:" + type(ex).__name__
+            if a["f"] == "boom":
+                ctx.fault = "eval_raises"
+                self.stats["fault-fired:eval_raises"] += 1
             if self.bcs_invalid(ents[0]):
                 return
             if self._numpy_also_raises((lambda: f(*[x.meta["val"] for x in ents])) if kind == "v"
